@@ -68,3 +68,160 @@ package redisemu
 //@ ensures signed.pos: signed && value >= 0 ==> (specFitsSigned(result, bits) && (bits == 64 && result == 9223372036854775807 || bits < 64 && !specFitsSigned(result+1, bits)))
 //@ ensures unsigned.neg: !signed && value < 0 ==> result == 0
 //@ ensures unsigned.pos: !signed && value >= 0 ==> (specFitsUnsigned(result, bits) && !specFitsUnsigned(result+1, bits))
+
+// ---------------------------------------------------------------- C17 / C04: bucket placement
+
+//@ func bitPosition
+//@ prop C17 C04
+//@ inline
+
+//@ func redisDict.hashToIndex
+//@ prop C17 C04
+//@ pure
+//@ fresh kk in 4..31 split
+//@ requires bucketCount >= 16 && bucketCount&(bucketCount-1) == 0
+//@ requires bucketCount == uint32(1)<<uint(kk)
+//@ ensures place: result == reverse32(uint32(fullHash))>>uint(32-kk)
+//@ ensures range: result < bucketCount
+
+// L2: cursor -> bucket index -> cursor round trip for every table size
+//@ lemma scanCursorRoundTrip(c uint32)
+//@ prop C17
+//@ fresh kk in 4..31 split
+//@ requires c < uint32(1)<<uint(kk)
+//@ ensures roundtrip: reverse32(reverse32(c<<uint(32-kk))<<uint(32-kk)) == c
+//@ ensures index.range: reverse32(c<<uint(32-kk)) < uint32(1)<<uint(kk)
+
+// L3: masking a cursor to a (smaller or equal) table keeps the normalised position at or before the old one
+//@ lemma scanMaskMonotone(c uint32)
+//@ prop C17
+//@ fresh kk in 4..31 split
+//@ ensures masked.le: reverse32(c&(uint32(1)<<uint(kk)-1)) <= reverse32(c)
+//@ ensures masked.bucketstart: reverse32(c&(uint32(1)<<uint(kk)-1)) == reverse32(c) & ^(uint32(1)<<uint(32-kk)-1)
+
+// L5: growing the table by one bit splits bucket i into 2i and 2i+1; shrinking merges them
+//@ lemma placementSplit(h uint32)
+//@ prop C17 C04
+//@ fresh kk in 4..30 split
+//@ ensures halve: (reverse32(h)>>uint(32-(kk+1)))>>1 == reverse32(h)>>uint(32-kk)
+
+// L4: the successor of the last bucket is reported as cursor 0
+//@ lemma scanEndCursor(n uint32)
+//@ prop C17
+//@ fresh kk in 4..31 split
+//@ requires n == uint32(1)<<uint(kk)
+//@ ensures zero: reverse32(n<<uint(32-kk)) == 0
+
+// ---------------------------------------------------------------- C01 / C13: RESP deserializer cursor discipline
+
+//@ func respDeserializer.findNextLine
+//@ prop C01 C13
+//@ requires rl != nil && 0 <= rl.pos && rl.pos <= len(rl.content) && rl.nextPos < 0
+//@ modifies respDeserializer.nextPos
+//@ ensures found: valid ==> rl.pos+2 <= rl.nextPos && rl.nextPos <= len(rl.content) && rl.content[rl.nextPos-2] == 13 && rl.content[rl.nextPos-1] == 10
+//@ ensures first: valid ==> all(j, rl.pos, rl.nextPos-2, !(rl.content[j] == 13 && rl.content[j+1] == 10))
+//@ ensures notfound: !valid ==> rl.nextPos < 0 && all(j, rl.pos, len(rl.content)-1, !(rl.content[j] == 13 && rl.content[j+1] == 10))
+//@ ensures others: forall r *respDeserializer :: r != rl ==> r.nextPos == old(r.nextPos)
+//@ loop 1 invariant rl.pos <= pos && rl.nextPos < 0 && end == len(rl.content)-1
+//@ loop 1 invariant all(j, rl.pos, pos, !(rl.content[j] == 13 && rl.content[j+1] == 10))
+//@ loop 1 invariant forall r *respDeserializer :: r != rl ==> r.nextPos == old(r.nextPos)
+//@ loop 1 decreases len(rl.content) - pos
+
+//@ func respDeserializer.moveToNextLine
+//@ prop C01 C13
+//@ requires rl != nil && rl.nextPos >= 0
+//@ modifies respDeserializer.pos respDeserializer.nextPos respDeserializer.lineNumber
+//@ ensures moved: rl.pos == old(rl.nextPos) && rl.nextPos == -1
+//@ ensures others: forall r *respDeserializer :: r != rl ==> r.pos == old(r.pos) && r.nextPos == old(r.nextPos)
+
+//@ func respDeserializer.peekNextLine
+//@ prop C01 C13
+//@ requires rl != nil && 0 <= rl.pos && rl.pos <= len(rl.content) && rl.nextPos < 0
+//@ modifies respDeserializer.nextPos
+//@ ensures found: valid ==> rl.pos+2 <= rl.nextPos && rl.nextPos <= len(rl.content) && rl.content[rl.nextPos-2] == 13 && rl.content[rl.nextPos-1] == 10
+//@ ensures first: valid ==> all(j, rl.pos, rl.nextPos-2, !(rl.content[j] == 13 && rl.content[j+1] == 10))
+//@ ensures line: valid ==> strlen(line) == rl.nextPos-2-rl.pos && all(j, 0, strlen(line), line[j] == rl.content[rl.pos+j])
+//@ ensures notfound: !valid ==> rl.nextPos < 0
+//@ ensures others: forall r *respDeserializer :: r != rl ==> r.nextPos == old(r.nextPos)
+
+//@ func respDeserializer.peekBulkLine
+//@ prop C01 C13
+//@ requires rl != nil && 0 <= rl.pos && rl.pos <= len(rl.content) && rl.nextPos < 0
+//@ requires length >= 0
+//@ modifies respDeserializer.nextPos
+//@ ensures ok: valid ==> rl.nextPos == rl.pos+length+2 && rl.nextPos <= len(rl.content) && rl.content[rl.nextPos-2] == 13 && rl.content[rl.nextPos-1] == 10
+//@ ensures line: valid ==> len(line) == length && all(j, 0, length, line[j] == rl.content[rl.pos+j])
+//@ ensures others: forall r *respDeserializer :: r != rl ==> r.nextPos == old(r.nextPos)
+
+//@ define rdstate
+//@ requires rl != nil && 0 <= rl.pos && rl.pos <= len(rl.content) && rl.nextPos < 0
+//@ modifies respDeserializer.pos respDeserializer.nextPos respDeserializer.lineNumber alloc map<respValue,respValue> map<respValue,struct{}> orderedRespMap respValue
+//@ ensures cursor: rl.nextPos < 0 && old(rl.pos) <= rl.pos && rl.pos <= len(rl.content)
+//@ ensures progress: valid ==> rl.pos > old(rl.pos)
+//@ end
+
+//@ func respValue.toString
+//@ prop C13
+//@ pure
+//@ requires rv != nil
+
+//@ func respValue.isEnd
+//@ prop C13
+//@ pure
+//@ requires rv != nil
+
+//@ func respNormalizeKey
+//@ prop C13
+//@ modifies alloc respValue
+
+//@ func newRespMapSized
+//@ prop C13
+//@ requires 0 <= size && size <= (1<<47)
+//@ modifies alloc map<respValue,respValue>
+
+//@ func newRespMap
+//@ prop C13
+//@ modifies alloc map<respValue,respValue>
+
+//@ func orderedRespMap.set
+//@ prop C13
+//@ requires orm != nil
+//@ modifies map<respValue,respValue> orderedRespMap
+
+//@ func respDeserializer.getCount64
+//@ prop C01 C13
+//@ pure
+//@ requires rl != nil && strlen(line) >= 1
+
+//@ func respDeserializer.getCount
+//@ prop C01 C13
+//@ pure
+//@ requires rl != nil && strlen(line) >= 1
+
+//@ func respDeserializer.getDouble
+//@ prop C01 C13
+//@ pure
+//@ requires rl != nil && strlen(line) >= 1
+
+//@ func respDeserializer.getNextValue
+//@ prop C01 C13
+//@ include rdstate
+
+//@ func respDeserializer.getNextValueEx
+//@ prop C01 C13
+//@ include rdstate
+
+//@ func respDeserializer.getNextArray
+//@ prop C01 C13
+//@ include rdstate
+//@ requires count >= 0
+//@ ensures progress0: valid && count > 0 ==> rl.pos > old(rl.pos)
+//@ loop 1 invariant rl.nextPos < 0 && old(rl.pos) <= rl.pos && rl.pos <= len(rl.content) && 0 <= i
+//@ loop 1 modifies respDeserializer.pos respDeserializer.nextPos respDeserializer.lineNumber alloc map<respValue,respValue> map<respValue,struct{}> orderedRespMap respValue
+
+//@ func respDeserializer.deserializeNext
+//@ prop C01 C13
+//@ requires rl != nil && 0 <= rl.pos && rl.pos <= len(rl.content)
+//@ modifies respDeserializer.pos respDeserializer.nextPos respDeserializer.lineNumber alloc map<respValue,respValue> map<respValue,struct{}> orderedRespMap respValue
+//@ ensures consumed: valid ==> length > 0 && rl.pos == old(rl.pos)+length && rl.pos <= len(rl.content)
+//@ ensures bounded: old(rl.pos) <= rl.pos && rl.pos <= len(rl.content)
